@@ -267,6 +267,32 @@ func (fr *Frame) execAppend(st *State, c *ssa.CallCommon, res ssa.Value) {
 
 func (fr *Frame) execCopy(st *State, c *ssa.CallCommon, res ssa.Value) {
 	v := fr.v
+	// copy(h[:], b) into the bytes of a named array (Hash20, Hash32): when b covers the whole array
+	// the array value becomes the one the blob of b encodes; otherwise it is unspecified
+	if sl, ok := c.Args[0].(*ssa.Slice); ok && sl.Low == nil && sl.High == nil {
+		if pt, ok := sl.X.Type().Underlying().(*types.Pointer); ok && isOpaqueNamed(pt.Elem()) {
+			if arr, ok := pt.Elem().Underlying().(*types.Array); ok {
+				if _, isSlice := c.Args[1].Type().Underlying().(*types.Slice); isSlice {
+					_, fromBlob := v.opaqueBlobFuns(pt.Elem(), arr.Len())
+					src := fr.term(st, c.Args[1])
+					blob := v.sliceBlob(st, src)
+					nv := v.smt.fresh("copy.arr", v.smt.sortOf(pt.Elem()))
+					v.smt.assert(implies(eq("(s.len "+src+")", fmt.Sprint(arr.Len())), eq(nv, app(fromBlob, blob))))
+					base := fr.val(sl.X)
+					if base.Loc != nil {
+						v.storeLoc(st, base.Loc, nv)
+					} else {
+						v.storePtr(st, base, pt.Elem(), nv)
+					}
+					v.smt.note("copy into the bytes of a named array: the value is the one encoded by the source bytes when the lengths match")
+					if res != nil {
+						fr.defVal(res, ite("(< (s.len "+src+") "+fmt.Sprint(arr.Len())+")", "(s.len "+src+")", fmt.Sprint(arr.Len())))
+					}
+					return
+				}
+			}
+		}
+	}
 	dT, ok := c.Args[0].Type().Underlying().(*types.Slice)
 	if !ok {
 		v.unsupported("copy to %s", c.Args[0].Type())
